@@ -1,4 +1,5 @@
 import IndicatifModel.Model.StyleBuilder
+import IndicatifModel.Proofs.GenBridgeFmt
 /-!
 # C14 — Every style the builder accepts can be rendered without panicking
 -/
@@ -97,5 +98,12 @@ theorem C14_fails_unrepaired :
   constructor
   · exact ⟨_, rfl, by decide⟩
   · exact ⟨_, rfl, by decide⟩
+
+/-- **the source as translated**: the default style the builder chains start from has as many tick strings and progress
+characters as `ProgressStyle::new` sets (regenerated on every run), so `default_good` speaks about the source's defaults -/
+theorem C14_source_defaults :
+    ({} : Style).tickN = Generated.defaultTickChars.length ∧ ({} : Style).progWidths.length = Generated.defaultProgressChars.length ∧
+    2 ≤ Generated.defaultTickChars.length ∧ 2 ≤ Generated.defaultProgressChars.length :=
+  ⟨GenBridge.defaults_eq.2.2.1, GenBridge.defaults_eq.2.2.2, by decide, by decide⟩
 
 end IndicatifModel.StyleBuilder
